@@ -130,6 +130,25 @@ for k, v in extra_text.items():
 for k, v in extra_tech.items():
     checks[k]["technique"] += v
 
+# ---- round 8 ----
+extra8 = {
+ "C01": " Round 8: literal-truncation space (every rune-boundary prefix of literals that use every escape / number / comment form, behind 0..15 blanks that vary the source's rune count against the lexer's buffer size class).",
+ "C02": " Round 8: backlog cores (60 values waiting in a channel, loops with and without a body) and a bound on ALL scheduler steps after the cancellation (polls, channel operations, lock-free receives: at most threads x (depth+8) + 8; the measured maximum on the unchanged tree is 8), so that the wait never grows with the data that is waiting.",
+ "C04": " Round 8: closures made one block below a block (or parameterless function scope) that has no bindings yet; the enclosing block binds afterwards and calls the closure.",
+ "C06": " Round 8: all-literal switch law: 0..16 filler cases (integer and string literals) around the case under test at three positions; the first case the implementation's own == calls equal must run.",
+ "C09": " Round 8 (and the end of round 7): throw of an empty string, throw of the interrupt error's text without any cancellation, list ELEMENTS (changed afterwards) as deferred arguments through a closure and to a host function deferred directly.",
+ "C10": " Round 8 (and the end of round 7): appends whose right side has an unconvertible element after a convertible one (nothing may be stored), two-target assignments (swap), and a name assigned from a typed slot is compared as a value of its own (the model's former 'taint' exception is gone since the implementation was repaired).",
+ "C11": " Round 8: part E - one call site of a Go function (fixed, variadic) or reflect-path script function re-entered by recursion from inside its own argument expressions; methods looked up by name on two Go types with the same printed name (two packages called twin), in both orders.",
+ "C13": " Round 8: first-time family - the shared scope has no table yet and two or three operations on DIFFERENT names each may create one lazily.",
+ "C14": " Round 8: deep-concurrent-recursion phase - one tree, three runs parked by a barrier 50 / 1000 / 4000 script calls deep at the same moment; each must yield its solo result.",
+ "C15": " Round 8: the parser's sync/atomic operations are schedule points too (overlay), and two 4100-byte three-token texts take part in the exhaustive interleaving phase (a repeated large text next to another one).",
+ "C16": " Round 8: fan-out with RANGE loops (a worker's loop may end only after the producer announced its last item) and the goroutine-free facts once more through vm.Execute (a context that can never be cancelled).",
+ "C19": " Round 8: import-after-writes phase - for every package two members are overwritten through patch(import(p)) and import(p).K = v in one environment, then a fresh environment's import must offer the table's values.",
+ "C20": " Round 8: a Go callee that WRITES through its pointer argument, observed through the variable the operand came from (a pointer stays the pointer, not a pointer to a copy).",
+}
+for k, v in extra8.items():
+    checks[k]["text"] += v
+
 for pid in sorted(checks):
     c = checks[pid]
     m["checks"].append({
